@@ -33,7 +33,7 @@ theorem exists_try_below {T : Int} (τ : Int) (h0 : 0 ≤ τ) :
 /-- An instant `τ ≥ 0` lies in exactly one try: `T·(2^m − 1) ≤ τ < T·(2^(m+1) − 1)`. -/
 theorem exists_try {T : Int} (hT : 0 < T) (τ : Int) (h0 : 0 ≤ τ) : ∃ m, off T m ≤ τ ∧ τ < off T (m + 1) := by
   have h := off_ge hT (τ.toNat + 1)
-  obtain ⟨m, _, h1, h2⟩ := exists_try_below τ h0 (τ.toNat + 1) (by omega)
+  obtain ⟨m, _, h1, h2⟩ := exists_try_below (T := T) τ h0 (τ.toNat + 1) (by omega)
   exact ⟨m, h1, h2⟩
 
 /-- a try that starts before the budget is one the retry count allows -/
@@ -154,3 +154,216 @@ theorem first_terminal {T n : Int} (hT : 0 < T) (obs : List Obs) (H : Int) (ho :
     exact (isTerminal_false_iff p).1 (by simpa using this)
 
 end Dhcp.Client.Timed
+
+namespace Dhcp.Client.Refine
+open Dhcp.Client.Timed
+
+variable {α : Type}
+
+theorem budget_eq_off (T n : Int) : budget T n = off T n.toNat := rfl
+
+/-! ### the observation sequence of a routed stream -/
+
+theorem obsFrom_append (m : α → Bool) (fl : Nat → Bool) (i : Nat) (a b : List (Int × α)) :
+    obsFrom m fl i (a ++ b) = obsFrom m fl i a ++ obsFrom m fl (i + a.length) b := by
+  induction a generalizing i with
+  | nil => simp [obsFrom]
+  | cons x a ih =>
+    simp only [List.cons_append, obsFrom, ih, List.length_cons]
+    have : i + 1 + a.length = i + (a.length + 1) := by omega
+    rw [this]
+
+theorem mem_obsFrom (m : α → Bool) (fl : Nat → Bool) (i : Nat) (arr : List (Int × α)) (o : Obs)
+    (h : o ∈ obsFrom m fl i arr) : ∃ a ∈ arr, o.t = a.1 ∧ o.kind = kindOf m a.2 := by
+  induction arr generalizing i with
+  | nil => simp [obsFrom] at h
+  | cons x arr ih =>
+    simp only [obsFrom, List.mem_cons] at h
+    rcases h with h | h
+    · subst h; exact ⟨x, by simp, rfl, rfl⟩
+    · obtain ⟨a, ha, h1, h2⟩ := ih (i + 1) h
+      exact ⟨a, List.mem_cons_of_mem _ ha, h1, h2⟩
+
+theorem kindOf_rej {m : α → Bool} {p : α} (h : m p = false) : kindOf m p = .rej := by simp [kindOf, h]
+theorem kindOf_acc {m : α → Bool} {p : α} (h : m p = true) : kindOf m p = .acc := by simp [kindOf, h]
+
+/-- packets the matcher rejects are quiet observations -/
+theorem obsFrom_quiet (m : α → Bool) (fl : Nat → Bool) (i : Nat) (arr : List (Int × α))
+    (h : ∀ a ∈ arr, m a.2 = false) : Quiet (obsFrom m fl i arr) := by
+  intro o ho
+  obtain ⟨a, ha, _, hk⟩ := mem_obsFrom m fl i arr o ho
+  right; rw [hk]; exact kindOf_rej (h a ha)
+
+theorem obsFrom_ordered (m : α → Bool) (fl : Nat → Bool) (i : Nat) (arr : List (Int × α)) (h : Ordered arr) :
+    OrderedObs (obsFrom m fl i arr) := by
+  constructor
+  · intro o ho
+    obtain ⟨a, ha, ht, _⟩ := mem_obsFrom m fl i arr o ho
+    rw [ht]; exact h.1 a ha
+  · have hp := h.2
+    clear h
+    induction arr generalizing i with
+    | nil => simp [obsFrom]
+    | cons x arr ih =>
+      simp only [obsFrom]
+      rw [List.pairwise_cons] at hp ⊢
+      refine ⟨fun o ho => ?_, ih (i + 1) hp.2⟩
+      obtain ⟨a, ha, ht, _⟩ := mem_obsFrom m fl (i + 1) arr o ho
+      rw [ht]; exact hp.1 a ha
+
+/-! ### `find?` on the stream, as a split of the arrival list -/
+
+theorem find_split (m : α → Bool) (arr : List (Int × α)) (p : α) (h : (streamOf arr).find? m = some p) :
+    ∃ pre t post, arr = pre ++ (t, p) :: post ∧ (∀ a ∈ pre, m a.2 = false) ∧ m p = true := by
+  induction arr with
+  | nil => simp [streamOf] at h
+  | cons a rest ih =>
+    simp only [streamOf, List.map_cons, List.find?_cons] at h
+    cases hm : m a.2 with
+    | true =>
+      rw [hm] at h
+      simp only [Option.some.injEq] at h
+      subst h
+      exact ⟨[], a.1, rest, rfl, by simp, hm⟩
+    | false =>
+      rw [hm] at h
+      obtain ⟨pre, t, post, heq, hpre, hp⟩ := ih h
+      refine ⟨a :: pre, t, post, by rw [heq]; rfl, ?_, hp⟩
+      intro b hb
+      rcases List.mem_cons.1 hb with rfl | hb
+      · exact hm
+      · exact hpre b hb
+
+theorem find_none (m : α → Bool) (arr : List (Int × α)) (h : (streamOf arr).find? m = none) :
+    ∀ a ∈ arr, m a.2 = false := by
+  intro a ha
+  have := List.find?_eq_none.1 h a.2 (by simp only [streamOf]; exact List.mem_map_of_mem ha)
+  simpa using this
+
+theorem find_of_split (m : α → Bool) (pre post : List (Int × α)) (t : Int) (p : α)
+    (hpre : ∀ a ∈ pre, m a.2 = false) (hp : m p = true) :
+    (streamOf (pre ++ (t, p) :: post)).find? m = some p := by
+  simp only [streamOf, List.map_append, List.map_cons, List.find?_append]
+  have : (pre.map (·.2)).find? m = none := by
+    rw [List.find?_eq_none]
+    intro x hx
+    obtain ⟨a, ha, rfl⟩ := List.mem_map.1 hx
+    simp [hpre a ha]
+  rw [this]
+  simp [hp]
+
+/-! ### the refinement -/
+
+/-- **The call returns the first packet of its routed stream that its matcher
+accepts, at that packet's arrival instant.**  `arr` in time order, the accepted
+packet strictly before the budget (`n ≥ 0`) or anywhere (`n < 0`); any
+quiescence flags `fl`; ANY observations `rest` after the routed stream (later
+traffic, a cancelled context, Close) and any horizon.  `i` is the packet's
+position in the stream; everything before it is rejected. -/
+theorem refines_some {T n : Int} (hT : 0 < T) (m : α → Bool) (fl : Nat → Bool) (arr : List (Int × α))
+    (ho : Ordered arr) (p : α) (hf : (streamOf arr).find? m = some p) :
+    ∃ i t, arr[i]? = some (t, p) ∧ m p = true ∧ (∀ j q, j < i → arr[j]? = some q → m q.2 = false) ∧
+      ∀ (rest : List Obs) (H : Int), (n < 0 ∨ t < budget T n) →
+        (runObs T n (obsOf m fl arr ++ rest) H).ret = some (t, .resp i) := by
+  obtain ⟨pre, t, post, heq, hpre, hp⟩ := find_split m arr p hf
+  subst heq
+  refine ⟨pre.length, t, by simp, hp, ?_, ?_⟩
+  · intro j q hj hq
+    rw [List.getElem?_append_left hj] at hq
+    exact hpre q (List.mem_of_getElem? hq)
+  · intro rest H hb
+    have h0 : 0 ≤ t := ho.1 (t, p) (by simp)
+    have hle : ∀ o ∈ obsFrom m fl 0 pre, o.t ≤ t := by
+      intro o hoo
+      obtain ⟨a, ha, hta, _⟩ := mem_obsFrom m fl 0 pre o hoo
+      rw [hta]
+      exact (List.pairwise_append.1 ho.2).2.2 a ha (t, p) (List.mem_cons_self ..)
+    have := quiet_then_terminal_ret (n := n) hT (obsFrom m fl 0 pre)
+      (obsFrom m fl (0 + pre.length + 1) post ++ rest) ⟨t, kindOf m p, 0 + pre.length, fl (0 + pre.length)⟩ H
+      (obsFrom_quiet m fl 0 pre hpre) (Or.inl (kindOf_acc hp)) h0 hle hb
+    simp only [obsOf, obsFrom_append, obsFrom, List.append_assoc, List.cons_append]
+    rw [this]
+    simp [terminalOutcome, kindOf_acc hp]
+
+/-- … applied at quiescence, with the transmissions (`C12_stop` composed in):
+the call made exactly the tries begun by the arrival instant. -/
+theorem refines_some_full {T n : Int} (hT : 0 < T) (m : α → Bool) (fl : Nat → Bool) (pre post : List (Int × α))
+    (t : Int) (p : α) (ho : Ordered (pre ++ (t, p) :: post)) (hpre : ∀ a ∈ pre, m a.2 = false) (hp : m p = true)
+    (hfl : fl pre.length = true) (rest : List Obs) (H : Int) (hb : n < 0 ∨ t < budget T n) :
+    ∃ k : Nat, T * (2 ^ k - 1) ≤ t ∧ t < T * (2 ^ (k + 1) - 1) ∧ (n < 0 ∨ (k : Int) < n) ∧
+      runObs T n (obsOf m fl (pre ++ (t, p) :: post) ++ rest) H =
+        ⟨(List.range (k + 1)).map (fun j => T * (2 ^ j - 1)), some (t, .resp pre.length)⟩ := by
+  have h0 : 0 ≤ t := ho.1 (t, p) (by simp)
+  have hle : ∀ o ∈ obsFrom m fl 0 pre, o.t ≤ t := by
+    intro o hoo
+    obtain ⟨a, ha, hta, _⟩ := mem_obsFrom m fl 0 pre o hoo
+    rw [hta]
+    exact (List.pairwise_append.1 ho.2).2.2 a ha (t, p) (List.mem_cons_self ..)
+  obtain ⟨k, hk1, hk2, hk, hrun⟩ := quiet_then_terminal_full (n := n) hT (obsFrom m fl 0 pre)
+    (obsFrom m fl (0 + pre.length + 1) post ++ rest) ⟨t, kindOf m p, 0 + pre.length, fl (0 + pre.length)⟩ H
+    (obsFrom_quiet m fl 0 pre hpre) (Or.inl (kindOf_acc hp)) (by simpa using hfl) h0 hle hb
+  refine ⟨k, hk1, hk2, hk, ?_⟩
+  simp only [obsOf, obsFrom_append, obsFrom, List.append_assoc, List.cons_append]
+  rw [hrun]
+  simp [terminalOutcome, kindOf_acc hp, sched_eq, off]
+
+/-- **Nothing in the routed stream is accepted.** `n ≥ 0`, horizon at or past
+the budget: the call fails with the no-response error at the budget
+`T·(2^n − 1)`, after exactly `n` transmissions (`C12_times` composed in);
+`n < 0`: it is still running at every horizon.  No condition on the instants. -/
+theorem refines_none {T n : Int} (hT : 0 < T) (m : α → Bool) (fl : Nat → Bool) (arr : List (Int × α))
+    (hf : (streamOf arr).find? m = none) (H : Int) :
+    (0 ≤ n → budget T n ≤ H →
+      runObs T n (obsOf m fl arr) H = ⟨sched T n.toNat, some (budget T n, .noResp)⟩) ∧
+    (n < 0 → (∀ a ∈ arr, a.1 ≤ H) → 0 ≤ H → (runObs T n (obsOf m fl arr) H).ret = none) ∧
+    ((runObs T n (obsOf m fl arr) H).ret = none ∨ ∃ t, (runObs T n (obsOf m fl arr) H).ret = some (t, .noResp)) := by
+  have hq : Quiet (obsOf m fl arr) := obsFrom_quiet m fl 0 arr (find_none m arr hf)
+  refine ⟨fun hn hH => times_of_quiet hT hn _ H hq hH, fun hn hle h0 => ?_, quiet_ret hT _ H hq⟩
+  refine negative_running_ret hT hn _ H hq ?_ h0
+  intro o hoo
+  obtain ⟨a, ha, hta, _⟩ := mem_obsFrom m fl 0 arr o hoo
+  rw [hta]; exact hle a ha
+
+/-- **sendAndRead_refines.** The timed machine run on a routed stream (in time
+order, every arrival strictly before the budget; any quiescence flags) returns
+exactly what the abstract call `find?` returns on that stream: the packet, at
+its arrival instant; or the no-response error at the budget when there is
+none (`n < 0`: never returns). -/
+theorem sendAndRead_refines {T n : Int} (hT : 0 < T) (m : α → Bool) (fl : Nat → Bool) (arr : List (Int × α))
+    (H : Int) (ho : Ordered arr) (hb : InBudget T n arr) :
+    match (streamOf arr).find? m with
+    | some p => ∃ i t, arr[i]? = some (t, p) ∧ (runObs T n (obsOf m fl arr) H).ret = some (t, .resp i)
+    | none => (0 ≤ n → budget T n ≤ H → (runObs T n (obsOf m fl arr) H).ret = some (budget T n, .noResp)) ∧
+              (n < 0 → (∀ a ∈ arr, a.1 ≤ H) → 0 ≤ H → (runObs T n (obsOf m fl arr) H).ret = none) := by
+  cases hf : (streamOf arr).find? m with
+  | some p =>
+    obtain ⟨i, t, hi, _, _, hrun⟩ := refines_some (n := n) hT m fl arr ho p hf
+    refine ⟨i, t, hi, ?_⟩
+    have := hrun [] H (by
+      by_cases hn : n < 0
+      · exact Or.inl hn
+      · exact Or.inr (hb (by omega) (t, p) (List.mem_of_getElem? hi)))
+    simpa using this
+  | none =>
+    obtain ⟨h1, h2, _⟩ := refines_none (n := n) hT m fl arr hf H
+    exact ⟨fun hn hH => by rw [h1 hn hH], h2⟩
+
+/-- **The corollary C13 uses.** Reading the machine's return back as a packet
+gives the abstract call's answer — for every horizon. -/
+theorem answer_refines {T n : Int} (hT : 0 < T) (m : α → Bool) (fl : Nat → Bool) (arr : List (Int × α))
+    (H : Int) (ho : Ordered arr) (hb : InBudget T n arr) :
+    answer arr (runObs T n (obsOf m fl arr) H).ret = (streamOf arr).find? m := by
+  have h := sendAndRead_refines hT m fl arr H ho hb
+  cases hf : (streamOf arr).find? m with
+  | some p =>
+    rw [hf] at h
+    obtain ⟨i, t, hi, hr⟩ := h
+    rw [hr]; simp [answer, hi]
+  | none =>
+    rcases (refines_none (n := n) hT m fl arr hf H).2.2 with hr | ⟨t, hr⟩ <;> rw [hr] <;> rfl
+
+theorem timedCall_eq_find {T n : Int} (hT : 0 < T) (m : α → Bool) (arr : List (Int × α)) (H : Int)
+    (ho : Ordered arr) (hb : InBudget T n arr) : timedCall T n m arr H = (streamOf arr).find? m :=
+  answer_refines hT m quiescent arr H ho hb
+
+end Dhcp.Client.Refine
